@@ -90,6 +90,30 @@ CLAIMED = {
              "every residue mod 64; TLC recomputes ZA and e = SM3(ZA||M) with the TLA+ SM3 (independent of the repository's) and "
              "the signature with module SM2.",
         note=SM2NOTE + " OpenSSL cross-signatures not used.", ref="6 C13"),
+    "C14": dict(
+        technique="TLA+ comb/window schedule model (production parameters + toy end-to-end) checked by TLC; TLC trace validation of all four schemes, variable-point and double-scalar multiplication against the affine double-and-add",
+        text="TLC checks at production parameters that each of the four comb schemes (and the 4-bit window) uses every scalar bit "
+             "exactly once with weight 2^bit, and on a toy curve that comb and window algorithms equal double-and-add for all "
+             "8-bit scalars and all points; on the real code every scheme and the public entry point, ScalarMult and "
+             "ScalarMixedMult_Unsafe are run on 0, 1, n-1, n, n+1, 2^256-1, every window/nibble value at (sampled in quick, all "
+             "in thorough) positions with other bits 0 and 1, special points (G, -G, 2G, small multiples, O), scalar lengths "
+             "0..40, and TLC recomputes each result with module EC.",
+        note=SM2NOTE, ref="6 C14"),
+    "C15": dict(
+        technique="Add/Double bodies extracted from the current tree (go/ast) and executed by TLC on toy curves for all pairs x all representatives x aliasing; TLC trace validation at 256 bits incl. decoding strictness",
+        text="The straight-line programs of SM2Point.Add/Double are extracted from /repo at check time and TLC executes them on toy "
+             "prime-order curves for ALL pairs of points (incl. O) in ALL projective representatives under every receiver-aliasing "
+             "pattern against the affine group law and the projective curve equation (a changed formula line fails here without "
+             "running Go); at 256 bits relation classes x aliasing x random Z, negate/select, safe vs fast encodings, and "
+             "decoding of every prefix/length/non-canonical/off-curve class with receiver-unchanged-on-error are validated by TLC.",
+        note=SM2NOTE + " The go/ast extractor fails closed on statements outside its grammar.", ref="6 C15"),
+    "C16": dict(
+        technique="addition chains extracted from the current tree and walked by TLC at production size (exponent = p-2 / n-2); TLC trace validation of every field operation on carry-critical operands against BigNat",
+        text="TLC interprets the two extracted addition chains with exponents as BigNat values: final exponent exactly p-2 / n-2, no "
+             "temporary read before written, operation counts = header comment. Every field/scalar-field operation of the real "
+             "code on residues with carry-critical limbs and random ones (with receiver aliasing), canonical decoding around the "
+             "modulus and MultiSelect are recomputed by TLC with integer arithmetic.",
+        note=SM2NOTE, ref="6 C16"),
     "C19": dict(
         category="model_checking",
         technique="TLA+ Reader x SignFlow model checked exhaustively by TLC (all scripts of <= 3 Read results); its script shapes and every fault offset replayed on the real code and validated by TLC",
